@@ -1,5 +1,6 @@
 """C02 — inserted values are escaped and cannot change document structure."""
 import itertools
+import re
 
 import core
 import extract_tables
@@ -307,6 +308,28 @@ def oracle(ctx):
             ctx.violation('dict-attribute key is emitted unescaped', {'template': '<p tal:attributes="d"/>', 'key': key},
                           actual=out, finding='D-02a' if out == '<p %s="v"/>' % key else None)
 
+    # translated attributes: whatever the translation function answers for an unknown message — the default it was given, or the message id
+    # (gettext style) — a computed value reaches a quoted attribute escaped
+    def _gettext(msgid, domain=None, mapping=None, context=None, target_language=None, default=None):
+        return msgid                       # unknown message: the id itself
+
+    def _dflt(msgid, domain=None, mapping=None, context=None, target_language=None, default=None):
+        return default if default is not None else msgid
+    HOSTILE = ['"><script>alert(1)</script>', 'x" onmouseover="alert(1)', "a'b<c>&d", 'Fish & chips', '</a>']
+    TA = [('<a href="#" tal:attributes="title v" i18n:attributes="title">l</a>', '"'), ("<a href='#' title='t' tal:attributes='title v' i18n:attributes='title'>l</a>", "'"),
+          ('<a tal:attributes="title v; alt v" i18n:attributes="title; alt">l</a>', '"'), ('<a title="${v}" i18n:attributes="title">l</a>', '"')]
+    for src, q in TA:
+        for val in HOSTILE:
+            for fn in (_gettext, _dflt):
+                ctx.count('evaluations')
+                out = PageTemplate(src, translate=fn)(v=val)
+                # the start tag must parse into the attributes it was written with, each value un-escaping to text without raw quote / < / >
+                m = re.match(r"<a((?:\s+[\w:-]+=(?:\"[^\"<>]*\"|'[^'<>]*'))*)\s*>l</a>$", out)
+                names = [a.group(1) for a in re.finditer(r"\s+([\w:-]+)=(?:\"[^\"<>]*\"|'[^'<>]*')", m.group(1))] if m else None
+                want_names = [n for n in ('href', 'title', 'alt') if (' %s=' % n) in src or ('%s v' % n) in src]
+                if m is None or sorted(names) != sorted(want_names):
+                    ctx.violation('a computed attribute value that is translated (i18n:attributes) reaches the start tag unescaped',
+                                  {'template': src, 'v': val, 'translate': fn.__name__}, actual=out)
     # the translation of a non-string value may itself be a non-string object (a lazy message; with the default translation
     # function: the value's `default` attribute): its string form is inserted, escaped like any other text
     class _Lazy:
